@@ -39,10 +39,15 @@ pub fn gap_case_ext(ts: u8, ns: u8, hsa: u8, g: u8, newcomer: Option<(u8, usize)
 /// Flag in the `after` component of `newcomer`: the newcomer reports 'master in ring' instead of
 /// 'master ready' (a station that was dropped from the ring without noticing it).
 pub const NEWCOMER_IN_RING: usize = 1 << 20;
+/// Flag: the newcomer never answers a poll; the station learns about it from a witnessed token
+/// pass newcomer -> successor (the successor changes to an address that may lie behind the
+/// current sweep position).
+pub const NEWCOMER_WITNESSED: usize = 1 << 21;
 
 pub fn gap_case_full(ts: u8, ns: u8, hsa: u8, g: u8, newcomer: Option<(u8, usize)>, lose_after: Option<usize>, passive: &[u8], obs: &mut Obs) -> CaseResult {
     let newcomer_state = if newcomer.map(|n| n.1 & NEWCOMER_IN_RING != 0).unwrap_or(false) { 3 } else { 2 };
-    let newcomer = newcomer.map(|(a, after)| (a, after & !NEWCOMER_IN_RING));
+    let newcomer_witnessed = newcomer.map(|n| n.1 & NEWCOMER_WITNESSED != 0).unwrap_or(false);
+    let newcomer = newcomer.map(|(a, after)| (a, after & !(NEWCOMER_IN_RING | NEWCOMER_WITNESSED)));
     let mut w = World::new(ts, hsa, Baudrate::B1500000, 300, g, None);
     w.step_us = 13;
     let gap0 = gap_set(ts, ns, hsa);
@@ -135,7 +140,7 @@ pub fn gap_case_full(ts: u8, ns: u8, hsa: u8, g: u8, newcomer: Option<(u8, usize
                         pending.push((end + w.bit_us(12), status_resp(ts, cur_ns, if established && !reclaiming { 3 } else { 2 })));
                     } else if passive.contains(&da) && Some(da) != newcomer.map(|n| n.0) {
                         pending.push((end + w.bit_us(12), status_resp(ts, da, 0)));
-                    } else if newcomer_active && Some(da) == newcomer.map(|n| n.0) && da != cur_ns {
+                    } else if newcomer_active && !newcomer_witnessed && Some(da) == newcomer.map(|n| n.0) && da != cur_ns {
                         // the newcomer answers as a ready master: it must become the successor
                         pending.push((end + w.bit_us(12), status_resp(ts, da, newcomer_state)));
                         newcomer_joined_at = Some(visits.len());
@@ -206,6 +211,17 @@ pub fn gap_case_full(ts: u8, ns: u8, hsa: u8, g: u8, newcomer: Option<(u8, usize
                         }
                         chain.push(ts);
                         let mut at = end;
+                        if let (true, true, None, Some((nc, _))) = (newcomer_witnessed, newcomer_active, newcomer_joined_at, newcomer) {
+                            if claim_ns.is_some() && cur_ns == ns && ns != ts && gap_set(ts, ns, hsa).contains(&nc) {
+                                // a token pass newcomer -> successor is witnessed: the newcomer is an
+                                // active station between TS and NS, i.e. the new successor
+                                at += w.bit_us(60 + 33);
+                                pending.push((at, token(nc, ns)));
+                                newcomer_joined_at = Some(visits.len());
+                                cur_ns = nc;
+                                obs.label("successor-learnt-from-witnessed-pass");
+                            }
+                        }
                         for pair in chain.windows(2) {
                             at += w.bit_us(60 + 33);
                             pending.push((at, token(pair[0], pair[1])));
@@ -516,14 +532,18 @@ pub fn property() -> Property {
                 }
                 let nc = *t.pick(&gap);
                 let after = t.below((gap.len() + g as usize + 3) as u64) as usize;
-                let in_ring = t.chance(1, 3);
-                if in_ring {
+                const HOW: [&str; 3] = ["answers the poll: master ready", "answers the poll: master in ring", "never answers; a token pass newcomer -> successor is witnessed"];
+                let mode = t.weighted(&[3, 2, 2]);
+                // without a partner there is nobody whose token pass could be witnessed
+                let mode = if mode == 2 && ns == ts { 0 } else { mode };
+                if mode == 1 {
                     obs.label("newcomer-reports-in-ring");
                 }
-                obs.nontrivial(fingerprint(&(ts, ns, hsa, g, nc, after, in_ring)));
-                obs.sample(|| json!({"ts": ts, "ns": ns, "hsa": hsa, "gap_factor": g, "newcomer": nc, "appears_after_visits": after, "reports": if in_ring { "master in ring" } else { "master ready" }}));
-                gap_case(ts, ns, hsa, g, Some((nc, if in_ring { after | NEWCOMER_IN_RING } else { after })), obs)
+                obs.nontrivial(fingerprint(&(ts, ns, hsa, g, nc, after, mode)));
+                obs.sample(|| json!({"ts": ts, "ns": ns, "hsa": hsa, "gap_factor": g, "newcomer": nc, "appears_after_visits": after, "how": HOW[mode]}));
+                gap_case(ts, ns, hsa, g, Some((nc, after | [0, NEWCOMER_IN_RING, NEWCOMER_WITNESSED][mode])), obs)
             }),
+            SubCheck::tape("gap_under_load", "rings whose stations run applications that never decline, with a small target rotation time: every window of G+4 consecutive token visits contains a GAP poll", crate::props::traffic::gap_under_load_case),
             SubCheck::tape("gap_passive", "passive stations (DP slaves) inside the GAP answer the polls with 'slave': same sweep rules, one poll per visit, nobody adopted", |t, obs| {
                 let hsa = 3 + t.below(30) as u8;
                 let ts = t.below(u64::from(hsa)) as u8;
@@ -566,6 +586,7 @@ pub fn property() -> Property {
             Tier::Quick => vec![
                 Step::Enumerate { kind: "gap_triples", count: 2 * triples_up_to(40) },
                 Step::Pbt { kind: "gap_newcomer", cases: 3000, max_len: 16 },
+                Step::Pbt { kind: "gap_under_load", cases: 400, max_len: 120 },
                 Step::Pbt { kind: "gap_passive", cases: 3000, max_len: 48 },
                 Step::Pbt { kind: "gap_reclaim", cases: 3000, max_len: 16 },
                 Step::Pbt { kind: "status_replies", cases: 12_000, max_len: 260 },
@@ -573,6 +594,7 @@ pub fn property() -> Property {
             Tier::Thorough => vec![
                 Step::Enumerate { kind: "gap_triples", count: 2 * triples_up_to(126) },
                 Step::Pbt { kind: "gap_newcomer", cases: 20_000, max_len: 16 },
+                Step::Pbt { kind: "gap_under_load", cases: 4000, max_len: 120 },
                 Step::Pbt { kind: "gap_passive", cases: 20_000, max_len: 48 },
                 Step::Pbt { kind: "gap_reclaim", cases: 20_000, max_len: 16 },
                 Step::Pbt { kind: "status_replies", cases: 100_000, max_len: 260 },
